@@ -240,7 +240,7 @@ def corpus_cases():
 def gen(tier, seed):
     rng = random.Random(f"C11-{seed}")
     quick = tier == "quick"
-    cap = 2 if quick else 27
+    cap = 2 if quick else 81
     cases = corpus_cases()
     for layout, ns in LAYOUT_NS.items():
         for n in ns:
